@@ -149,7 +149,8 @@ def _reapply_behaviour(ctx):
         # flush against D1 (extents meet at x = 10, no shared cell — a TFSF region reads the materials one cell outside
         # its own slice, so a flush device is part of what it is set up against), srcB shares cells with D2, srcC is
         # separated from both devices on every axis
-        boxes = {"D1": ((10, 16), (4, 10), (4, 10)), "D2": ((30, 36), (30, 36), (30, 36)), "srcA": ((4, 10), (4, 10), (4, 10)), "srcB": ((32, 34), (28, 40), (31, 33)), "srcC": ((20, 24), (18, 22), (20, 24))}
+        boxes = {"D1": ((10, 16), (4, 10), (4, 10)), "D2": ((30, 36), (30, 36), (30, 36)), "srcA": ((4, 10), (4, 10), (4, 10)), "srcB": ((32, 34), (28, 40), (31, 33)), "srcC": ((20, 24), (18, 22), (20, 24)), "srcD": ((31, 33), (32, 35), (31, 34)), "srcE": ((11, 15), (5, 9), (10, 14)), "srcF": ((28, 40), (28, 40), (28, 40))}
+        # srcD lies entirely inside D2, srcE is flush against D1 along z, srcF contains D2 entirely
         applied = {}
 
         def mk_apply(name):
@@ -165,7 +166,7 @@ def _reapply_behaviour(ctx):
             d.attrs["apply"] = mk_apply(dn)
             devices.append(d)
         S = ix.cls("fdtdx.objects.object.SimulationObject")
-        others = [Obj(S, dict(name=n, apply=mk_apply(n)), n) for n in ("srcA", "srcB", "srcC")]
+        others = [Obj(S, dict(name=n, apply=mk_apply(n)), n) for n in ("srcA", "srcB", "srcC", "srcD", "srcE", "srcF")]
 
         def gate(it_, callee, args, kwargs):
             # a one-argument predicate of SimulationObject asked of a device about another object: run the repo's own
@@ -199,10 +200,10 @@ def _reapply_behaviour(ctx):
         out = res[0] if isinstance(res, tuple) else res
         label = f"apply_params[two devices{', c4 allocated' if with_c4 else ''}]"
         who = {n: len(v) for n, v in applied.items() if n not in ("D1", "D2")}  # a device asked about itself: its own apply is not the subject
-        ctx.ob("R29.3", f"{label}:who-is-re-applied", who == {"srcA": 1, "srcB": 1}, "exactly the objects that share cells with, or sit flush against, some device — the first device as well as the last — are re-applied, once each (decided by the repo's own predicate on concrete boxes); an object overlapping none is left as place_objects set it up", who, {"srcA": 1, "srcB": 1})
+        ctx.ob("R29.3", f"{label}:who-is-re-applied", who == {"srcA": 1, "srcB": 1, "srcD": 1, "srcE": 1, "srcF": 1}, "exactly the objects that share cells with, or sit flush against, some device — the first device as well as the last — are re-applied, once each (decided by the repo's own predicate on concrete boxes); an object overlapping none is left as place_objects set it up", who, {"srcA": 1, "srcB": 1})
         state_args = {"inv_permittivities": "inv_permittivities", "inv_permeabilities": "inv_permeabilities", "dispersive_c1": "dispersive_c1", "dispersive_c2": "dispersive_c2", "dispersive_c3": "dispersive_c3", "dispersive_c4": "dispersive_c4", "electric_conductivity": "electric_conductivity"}
         bad = []
-        for n in ("srcA", "srcB"):
+        for n in ("srcA", "srcB", "srcD", "srcE", "srcF"):
             for kw in applied.get(n, [])[:1]:
                 for arg, field in state_args.items():
                     want = out.attrs.get(field)
